@@ -519,6 +519,9 @@ func explore(h Harness, tier string, nworkers int) *harnessReport {
 	rep.Solver = strings.TrimSpace(bin + " " + strings.Join(extra, " "))
 	t0 := time.Now()
 	maxPaths := tc.MaxPaths
+	if v, err := strconv.Atoi(os.Getenv("GOSYM_MAXPATHS")); err == nil && v > 0 {
+		maxPaths = v // smoke runs of a tier with a small path cap (reported as path-budget)
+	}
 	if maxPaths == 0 {
 		maxPaths = 20000
 	}
